@@ -88,8 +88,12 @@ fn parse_hex_key(s: &str) -> Result<[u8; KEY_SIZE], KeyParseError> {
     if s.len() == KEY_SIZE * 2 {
         let mut r = [0u8; KEY_SIZE];
         for i in 0..KEY_SIZE {
-            r[i] = u8::from_str_radix(&s[i * 2..i * 2 + 2], 16)
-                .map_err(KeyParseError::InvalidKeyChar)?;
+            // `get` instead of indexing: 64 bytes are fewer than 64 characters if the line
+            // contains a multi-byte character, and slicing inside one would panic.
+            let digits = s
+                .get(i * 2..i * 2 + 2)
+                .ok_or(KeyParseError::InvalidKeyLength)?;
+            r[i] = u8::from_str_radix(digits, 16).map_err(KeyParseError::InvalidKeyChar)?;
         }
         Ok(r)
     } else {
